@@ -453,3 +453,176 @@ class ComplexParts(Harness):
             return False
         re_, im = out[0]['result'], out[1]['result']
         return And(isint(re_) and re_ == inp['a'], isint(im) and im == inp['b'])
+
+
+# ------------------------------------------------------------------------------------------------
+def as_dyadic(res):
+    """(num, k) with the numeric result == num / 2^k exactly, else None"""
+    if isinstance(res, (bool, SymBool)):
+        return None
+    if isinstance(res, (int, SymInt)):
+        return zint(res), 0
+    if isinstance(res, float):
+        if res != res or res in (float('inf'), float('-inf')):
+            return None
+        n, d = res.as_integer_ratio()
+        return z3.IntVal(n), d.bit_length() - 1
+    if isinstance(res, SymFloat):
+        if res.iz is not None:
+            return res.iz, 0
+        if res.dy is not None:
+            return res.dy
+    return None
+
+
+def as_quotient(res):
+    """(q, den) with the numeric result == the double nearest to q / den (den a positive integer constant), else None"""
+    if isinstance(res, SymFloat) and res.quot is not None and z3.is_int_value(z3.simplify(res.quot[1])):
+        return res.quot[0], z3.simplify(res.quot[1]).as_long()
+    d = as_dyadic(res)
+    if d is not None and d[1] == 0:
+        return d[0], 1
+    return None
+
+
+DY_DIVISORS = [0.5, -0.5, 0.25, 1.5, -2.5, 3.0, -7.0, 0.125, 100.0, 25.0]
+DY_SIGNIFS = [0.25, -0.25, 0.5, 0.75, -0.75, 1.5, 0.125, 2.5, -2.5, 25.0, 100.0]
+
+
+@register
+class Dyadic(Harness):
+    name = 'C17.dyadic'
+    prop = 'C17'
+    doc = 'the integer and rounding functions on dyadic fractions m / 2^k (exactly representable, so the float arithmetic of the ' \
+          'implementation is decided exactly): INT, EVEN, ODD, SIGN, QUOTIENT and MOD with fractional operands, CEILING / FLOOR ' \
+          'with fractional significances, ROUND / ROUNDUP / ROUNDDOWN to 0..3 (ROUND: -2..3) digits'
+    functions = ('mathtrig.INT', 'mathtrig.EVEN', 'mathtrig.ODD', 'mathtrig.SIGN', 'mathtrig.QUOTIENT', 'mathtrig.MOD', 'mathtrig.CEILING',
+                 'mathtrig.FLOOR', 'mathtrig.ROUND', 'mathtrig.ROUNDUP', 'mathtrig.ROUNDDOWN', 'utils.parse_number')
+    bounds = 'number = m / 2^k for every integer |m| < 2^40 and k = 1..3 (quick: 1..2), also k = 0 as an integer-valued float; ' \
+             'divisors from %r, significances from %r; digits 0..3 (ROUND -2..3).  Float operations on these values are exact ' \
+             '(sums, products) or correctly rounded quotients of integers, whose floor / ceil / trunc equal those of the exact ' \
+             'rational' % (DY_DIVISORS, DY_SIGNIFS)
+    outside = ('fractions that are not dyadic (0.1, 0.3: their doubles are not the decimal they spell)', '|m| >= 2^40')
+    case_timeout_s = {'quick': 200, 'thorough': 1500}
+
+    def cases(self, tier):
+        ks = (0, 1, 2) if tier == 'quick' else (0, 1, 2, 3)
+        out = []
+        for k in ks:
+            for fn in ('INT', 'EVEN', 'ODD', 'SIGN'):
+                if k:
+                    out.append({'fn': fn, 'k': k})
+            for y in DY_DIVISORS:
+                out.append({'fn': 'QUOTIENT', 'k': k, 'y': y})
+            for y in (0.5, -0.75, 1.5, -2.5):
+                out.append({'fn': 'MOD', 'k': k, 'y': y})
+            for s in DY_SIGNIFS:
+                out.append({'fn': 'CEILING', 'k': k, 'y': s})
+                out.append({'fn': 'FLOOR', 'k': k, 'y': s})
+            if k:
+                for d in (-2, -1, 0, 1, 2, 3):
+                    out.append({'fn': 'ROUND', 'k': k, 'd': d})
+                for d in (0, 1, 2, 3):
+                    out.append({'fn': 'ROUNDUP', 'k': k, 'd': d})
+                    out.append({'fn': 'ROUNDDOWN', 'k': k, 'd': d})
+        return out
+
+    def build(self, e, p):
+        from ..values import SymFloat as SF
+        if p['k'] == 0:
+            m = e.fresh_int('m', -(2 ** 40) + 1, 2 ** 40 - 1)
+            return {'x': SF(iz=m.z)}
+        return {'x': e.fresh_dyadic('m', p['k'], -(2 ** 40) + 1, 2 ** 40 - 1)}
+
+    def run(self, env, inp, p):
+        vs = {'vx': inp['x']}
+        if 'y' in p:
+            vs['vy'] = p['y']
+            return self.parse_with(env, '%s(vx,vy)' % p['fn'], vs)
+        if 'd' in p:
+            return self.parse_with(env, '%s(vx,%s)' % (p['fn'], ('0%d' % p['d']) if p['d'] < 0 else p['d']) if False else
+                                   '%s(vx,vd)' % p['fn'], dict(vs, vd=p['d']))
+        return self.parse_with(env, '%s(vx)' % p['fn'], vs)
+
+    def post(self, env, inp, out, p):
+        if not is_record(out):
+            return False
+        fn, k = p['fn'], p['k']
+        xm, xk = as_dyadic(inp['x'])
+        # all comparisons on integers scaled by a common power of two
+        if fn == 'FLOOR' and p['y'] < 0:
+            if T(mkbool(z3.simplify(xm > 0))):
+                return err_is(out, '#NUM!')
+        if not ok_result(out):
+            return False
+        res = out['result']
+        two = lambda n: 2 ** n
+        if fn in ('INT', 'EVEN', 'ODD', 'SIGN'):
+            rz = as_intval(res)
+            if rz is None:
+                return False
+            den = z3.IntVal(two(xk))
+            if fn == 'INT':
+                return mkbool(z3.simplify(z3.And(rz * den <= xm, (rz + 1) * den > xm)))
+            if fn == 'SIGN':
+                return mkbool(z3.simplify(rz == z3.If(xm > 0, 1, z3.If(xm < 0, -1, 0))))
+            par = 0 if fn == 'EVEN' else 1
+            am, ar = z3.If(xm < 0, -xm, xm), z3.If(xm < 0, -rz, rz)
+            # |r| is the least integer of the parity that is >= |x|; the sign follows x (zero: EVEN 0, ODD 1)
+            return mkbool(z3.simplify(z3.And(ar % 2 == par, ar * den >= am, (ar - 2) * den < am, ar >= par,
+                                             z3.Implies(xm == 0, rz == par))))
+        if fn in ('QUOTIENT', 'MOD', 'CEILING', 'FLOOR'):
+            yn, yd = p['y'].as_integer_ratio()
+            yk = yd.bit_length() - 1
+            if fn == 'QUOTIENT':
+                rz = as_intval(res)
+                if rz is None:
+                    return False
+                # x / y = (xm * 2^yk) / (yn * 2^xk): truncated
+                a, b = xm * two(yk), z3.IntVal(yn * two(xk))
+                aa, ab = z3.If(a < 0, -a, a), z3.If(b < 0, -b, b)
+                q = aa / ab
+                return mkbool(z3.simplify(rz == z3.If((a < 0) != (b < 0), -q, q)))
+            rd = as_dyadic(res)
+            if rd is None:
+                return False
+            K = max(rd[1], xk, yk)
+            R, X, A = rd[0] * two(K - rd[1]), xm * two(K - xk), abs(yn) * two(K - yk)
+            if fn == 'MOD':
+                # number = divisor * integer + MOD, MOD carries the divisor's sign and is smaller in magnitude
+                Y = yn * two(K - yk)
+                sign_ok = z3.And(R >= 0, R < A) if yn > 0 else z3.And(R <= 0, -R < A)
+                return mkbool(z3.simplify(z3.And((X - R) % A == 0, sign_ok)))
+            up = z3.And(R % A == 0, R >= X, R - A < X)
+            down = z3.And(R % A == 0, R <= X, R + A > X)
+            if fn == 'CEILING':
+                want = z3.If(z3.Or(X >= 0, yn > 0), up, down)
+            else:
+                want = z3.If(z3.Or(X >= 0, yn > 0), down, up)
+            return mkbool(z3.simplify(want))
+        # ROUND / ROUNDUP / ROUNDDOWN
+        d = p['d']
+        qd = as_quotient(res)
+        if qd is None:
+            return False
+        q, den = qd
+        if d >= 0:
+            if 10 ** d % den != 0:
+                return False
+            q = q * (10 ** d // den)          # result = q / 10^d
+            # compare q / 10^d with xm / 2^xk:  q * 2^xk  vs  xm * 10^d
+            Q, X, U = q * two(xk), xm * (10 ** d), z3.IntVal(two(xk))     # U = one unit of 10^-d on this scale
+        else:
+            if den != 1:
+                return False
+            m10 = 10 ** (-d)
+            Q, X, U = q * two(xk), xm, z3.IntVal(two(xk) * m10)
+            if fn == 'ROUND':
+                return mkbool(z3.simplify(z3.And(q % m10 == 0, 2 * (Q - X) <= U, 2 * (X - Q) <= U)))
+        if fn == 'ROUND':
+            return mkbool(z3.simplify(z3.And(2 * (Q - X) <= U, 2 * (X - Q) <= U)))
+        aQ, aX = z3.If(Q < 0, -Q, Q), z3.If(X < 0, -X, X)
+        same_sign = z3.Or(Q == 0, (Q > 0) == (X > 0))
+        if fn == 'ROUNDUP':
+            return mkbool(z3.simplify(z3.And(same_sign, aQ >= aX, aQ - U < aX)))
+        return mkbool(z3.simplify(z3.And(same_sign, aQ <= aX, aQ + U > aX)))
